@@ -2881,13 +2881,43 @@ func (db *DB) Export(ctx context.Context, dst io.Writer) (ltx.Pos, error) {
 		defer func() { _ = walFile.Close() }()
 	}
 
-	// Write page frames.
-	var chksum ltx.Checksum
 	var lockPgno uint32
 	if pageSize != 0 { // unknown until the first page has been written
 		lockPgno = ltx.LockPgno(pageSize)
 	}
+
+	// The pages are read twice. The first pass ensures that they are the image
+	// of the position, e.g. that no uncommitted page of an interrupted
+	// transaction is read, before anything is written: the destination may be
+	// an HTTP response that cannot be taken back. The locks held keep the
+	// pages unchanged until the second pass has written them.
+	var chksum ltx.Checksum
 	pageData := make([]byte, pageSize)
+	for pgno := uint32(1); pgno <= pageN; pgno++ {
+		// Read from WAL if page exists in offset map. Otherwise read from DB.
+		if walFrameOffset, ok := walFrameOffsets[pgno]; ok {
+			if _, err := walFile.Seek(walFrameOffset+WALFrameHeaderSize, io.SeekStart); err != nil {
+				return pos, fmt.Errorf("seek wal page: %w", err)
+			} else if _, err := io.ReadFull(walFile, pageData); err != nil {
+				return pos, fmt.Errorf("read wal page: %w", err)
+			}
+		} else {
+			if _, err := dbFile.Seek(int64(pgno-1)*int64(pageSize), io.SeekStart); err != nil {
+				return pos, fmt.Errorf("seek database page: %w", err)
+			} else if _, err := io.ReadFull(dbFile, pageData); err != nil {
+				return pos, fmt.Errorf("read database page: %w", err)
+			}
+		}
+
+		if pgno != lockPgno {
+			chksum ^= ltx.ChecksumPage(pgno, pageData)
+		}
+	}
+	if postApplyChecksum := ltx.ChecksumFlag | chksum; !pos.IsZero() && postApplyChecksum != pos.PostApplyChecksum {
+		return pos, fmt.Errorf("export checksum mismatch at tx %s: %x <> %x", pos.TXID.String(), postApplyChecksum, pos.PostApplyChecksum)
+	}
+
+	// Write page frames.
 	for pgno := uint32(1); pgno <= pageN; pgno++ {
 		// Read from WAL if page exists in offset map. Otherwise read from DB.
 		if walFrameOffset, ok := walFrameOffsets[pgno]; ok {
@@ -2907,16 +2937,6 @@ func (db *DB) Export(ctx context.Context, dst io.Writer) (ltx.Pos, error) {
 		if _, err := dst.Write(pageData); err != nil {
 			return pos, fmt.Errorf("write page %d: %w", pgno, err)
 		}
-
-		if pgno != lockPgno {
-			chksum ^= ltx.ChecksumPage(pgno, pageData)
-		}
-	}
-
-	// Ensure the exported pages are the image of the position, e.g. that no
-	// uncommitted page of an interrupted transaction has been read.
-	if postApplyChecksum := ltx.ChecksumFlag | chksum; !pos.IsZero() && postApplyChecksum != pos.PostApplyChecksum {
-		return pos, fmt.Errorf("export checksum mismatch at tx %s: %x <> %x", pos.TXID.String(), postApplyChecksum, pos.PostApplyChecksum)
 	}
 
 	return pos, nil
